@@ -75,3 +75,4 @@ bool model_step(Model &m, Op &op);
 void annotate(Model &m, Program &p);   // resets the model, walks all ops
 long long value_for(int opidx, int rank, long long k, long long maxv);
 void ensure_records(MVar &v, long long nrec);
+std::string nfc_lite(const std::string &s);
